@@ -181,11 +181,54 @@ func (f *Frame) execStmt(s ast.Stmt, st *State) []Outcome {
 			b := st.clone()
 			b.path = append(append([]string(nil), st.path...), fmt.Sprintf("select%d", len(outs)))
 			if clause.Comm != nil {
-				send, ok := clause.Comm.(*ast.SendStmt)
-				if !ok {
-					in.unsupported(clause.Pos(), "select with a receive case (channels are not modelled)")
+				switch cm := clause.Comm.(type) {
+				case *ast.SendStmt:
+					f.evalExpr(cm.Value, b)
+				case *ast.ExprStmt:
+					// `case <-ch:` -- the received value is dropped
+				case *ast.AssignStmt:
+					// `case v := <-ch` / `case v, ok := <-ch`: an arbitrary value of the element type;
+					// with ok == true a pointer element is non-nil (ASSUMED: senders send non-nil
+					// pointers), with ok == false it is the zero value
+					ue, isRecv := ast.Unparen(cm.Rhs[0]).(*ast.UnaryExpr)
+					if !isRecv || ue.Op != token.ARROW || len(cm.Rhs) != 1 {
+						in.unsupported(clause.Pos(), "select case %T", clause.Comm)
+					}
+					ct, isChan := f.resolve(f.pkg.TypesInfo.TypeOf(ue.X)).Underlying().(*types.Chan)
+					if !isChan {
+						in.unsupported(clause.Pos(), "receive from a non-channel")
+					}
+					okT := in.D.fresh("recvok", SBool)
+					if len(cm.Lhs) == 1 {
+						okT = TTrue
+					}
+					var v Val
+					if okT.IsTrue() {
+						v = in.freshVal("recv", ct.Elem(), f)
+					} else {
+						// fork on ok below
+						v = in.freshVal("recv", ct.Elem(), f)
+					}
+					if pv, isPtr := v.(PtrV); isPtr {
+						b.assume(Implies(okT, Not(pv.Nil)))
+					}
+					if len(cm.Lhs) == 2 {
+						// closed channel: zero value and ok == false -- explored as a separate branch
+						b2 := b.clone()
+						b2.path = append(append([]string(nil), b.path...), "closed")
+						f.assignOrDefine(cm.Lhs[0], in.zeroVal(ct.Elem(), f), cm.Tok, b2)
+						f.assignOrDefine(cm.Lhs[1], Sc{TFalse}, cm.Tok, b2)
+						outs = append(outs, f.execBlock(clause.Body, b2)...)
+						b.assume(okT)
+						f.assignOrDefine(cm.Lhs[0], v, cm.Tok, b)
+						f.assignOrDefine(cm.Lhs[1], Sc{TTrue}, cm.Tok, b)
+					} else {
+						f.assignOrDefine(cm.Lhs[0], v, cm.Tok, b)
+					}
+					in.note("select receive: the received value is arbitrary (non-nil if a pointer); channel contents are not modelled")
+				default:
+					in.unsupported(clause.Pos(), "select case %T", clause.Comm)
 				}
-				f.evalExpr(send.Value, b)
 			}
 			outs = append(outs, f.execBlock(clause.Body, b)...)
 		}
